@@ -22,6 +22,24 @@ dumped graph is the test plan.  EVERY edge  s --Act(args)--> v  is replayed on t
     str.lower (Unicode database) for the case pairs of the alphabet, float() of the numeric
     tokens for the canonical lexical forms.  Disagreement = MachineryError.
 
+  * REPEATED EVALUATION of one call site (a function token keeps no state between evaluations):
+    the edges are grouped into batches that share the arguments at the positions spelled as
+    LITERALS ('abc', 2.5, xs:double('INF')) and differ at the positions spelled as variables;
+    every literal/variable mask of every function is used.  A batch is evaluated (a) as ONE
+    expression `for $k in 1 to n return f($v0[$k], 'literal', $v2[$k])`, compared item by item
+    with the TLC values, and (b) as ONE parsed Selector (1.0 parser where the function exists)
+    evaluated n times with different variable bindings.
+  * URI family: all strings <= UriLen over {'%', '2', '0', 'F', 'f', 'G', 'a', ' '} ('%20', '%4G',
+    'a%2F' ...) through encode-for-uri / iri-to-uri / escape-html-uri; the spec escapes per
+    character (LawUriSplit: no look-ahead, '%' is always %25 for encode-for-uri, never escaped
+    by the other two).
+  * NODE-SET ARGUMENTS (XPath 1.0): the spec's doc family (context element x with children b, c,
+    d and attribute k; string(node-set) = string-value of the first node) is replayed with the
+    1.0 parser and the 2.0 parser in compatibility mode on xml.etree and lxml trees: relative
+    paths b c d . @k as arguments of every 1.0 string function (multi-node arguments in every
+    position), one parsed Selector over all context elements, and the predicate spelling
+    /r/x[f(b, c) = $e]; libxml2 is second oracle for all of it.
+
 Error codes are not named by the property: only the outcome class is compared for FOCH0001.
 Excluded (property): case mapping beyond ASCII letters, collations other than the code point
 collation (the parsers are built with default_collation = code point collation so that the
@@ -31,12 +49,15 @@ from __future__ import annotations
 
 import json
 import os
+import zlib
 from decimal import Decimal
 
 from .. import core, tla
 
 CODEPOINT = 'http://www.w3.org/2005/xpath-functions/collation/codepoint'
 ALL_ACTS = {"fn1", "fn2", "translate", "substring", "concatx", "rejoin", "cps"}
+EXTRA_ACTS = {"uri", "doc"}
+URI_ALPHA = {37, 50, 48, 70, 102, 71, 97, 32}       # % 2 0 F f G a space
 A12 = {97, 98, 65, 49, 32, 9, 10, 769, 128512, 37, 47, 160}
 A8 = {97, 98, 65, 32, 10, 769, 128512, 160}
 A2Q = {97, 32, 769, 128512}
@@ -67,16 +88,18 @@ def _parts(alpha, n, with_zero=True):
 
 def _tiers():
     quick = [('L3', dict(MaxLen=3, Alpha=A8, Alpha2=A2Q, AlphaM={97, 32, 128512}, GridName='small',
-                         Sweep=True, Part=EVERY, Acts=ALL_ACTS))]
+                         Sweep=True, Part=EVERY, UriAlpha=URI_ALPHA, UriLen=4, DocLen=3, Acts=ALL_ACTS | EXTRA_ACTS))]
     thorough = []
     # all strings <= 3 over the full alphabet x all second strings <= 2 over 9 character classes x full grid
     for i, p in enumerate(_parts(A12, 3)):
         thorough.append((f'L3-full-p{i}', dict(MaxLen=3, Alpha=A12, Alpha2=A9T, AlphaM={97, 98, 32, 128512},
-                                              GridName='full', Sweep=(i == 0), Part=p, Acts=ALL_ACTS)))
+                                              GridName='full', Sweep=(i == 0), Part=p, UriAlpha=URI_ALPHA, UriLen=5, DocLen=4,
+                                              Acts=(ALL_ACTS | EXTRA_ACTS if i == 0 else ALL_ACTS))))
     # all strings <= 4 over 6 character classes x second strings <= 2 over 5 x full grid
     for i, p in enumerate(_parts(A6, 2, with_zero=False)):
         thorough.append((f'L4-p{i}', dict(MaxLen=4, Alpha=A6, Alpha2=A2T, AlphaM={97, 32, 128512},
-                                          GridName='full', Sweep=False, Part=p, Acts=ALL_ACTS)))
+                                          GridName='full', Sweep=False, Part=p, UriAlpha=URI_ALPHA, UriLen=1, DocLen=0,
+                                          Acts=ALL_ACTS)))
     return {'quick': quick, 'thorough': thorough}
 
 
@@ -87,7 +110,7 @@ IN10_F2 = {'contains', 'starts-with', 'substring-before', 'substring-after', 'co
 COLLATION_F2 = {'contains', 'starts-with', 'ends-with', 'substring-before', 'substring-after', 'compare'}
 SPECIALS = {'INF', '-INF', 'NaN'}
 EXPECTED_ACTIONS = {'Fn1', 'Fn2', 'Translate', 'Substring2', 'Substring3', 'ConcatNum', 'ConcatNum10',
-                    'ConcatBool', 'CpToStr', 'Rejoin'}
+                    'ConcatBool', 'CpToStr', 'Rejoin', 'DocFn1', 'DocFn2', 'DocTranslate', 'DocConcat3', 'DocSubstring'}
 
 
 # ---------------------------------------------------------------------------------------
@@ -123,6 +146,8 @@ def dec_var(e):
         return int(e[1])
     if k == 'dec':
         return Decimal(e[1])
+    if k == 'seq':
+        return [dec_var(x) for x in e[1]]
     raise ValueError(k)
 
 
@@ -271,6 +296,334 @@ def libxml2(expr: str, variables: dict):
     return project(r)
 
 
+def new_selector(expr: str, version: str):
+    """one parsed token tree (public Selector), or an outcome tuple if parsing fails"""
+    import elementpath
+    from elementpath.exceptions import ElementPathError
+    try:
+        if version == '2.0-compat':
+            return elementpath.Selector(expr, parser=parsers()['2.0'], compatibility_mode=True, default_collation=CODEPOINT)
+        kw = {} if version == '1.0' else {'default_collation': CODEPOINT}
+        return elementpath.Selector(expr, parser=parsers()[version], **kw)
+    except ElementPathError as e:
+        return ('err', (e.code or '').split(':')[-1])
+    except RecursionError:
+        return ('escaped', 'RecursionError')
+    except Exception as e:  # noqa
+        return ('escaped', type(e).__name__)
+
+
+def run_selector(sel, root, raw: bool = False, **kw):
+    """-> abstract outcome of sel.select(root, **kw) (raw: the python result itself)"""
+    from elementpath.exceptions import ElementPathError
+    if isinstance(sel, tuple):
+        return sel
+    try:
+        r = sel.select(root, **kw)
+    except ElementPathError as e:
+        return ('err', (e.code or '').split(':')[-1])
+    except RecursionError:
+        return ('escaped', 'RecursionError')
+    except Exception as e:  # noqa
+        return ('escaped', type(e).__name__)
+    return ('raw', r) if raw else project(r)
+
+
+# ---------------------------------------------------------------------------------------
+# literal spellings and call sites (for the repeated-evaluation batches)
+
+def str_lit(cps, version: str):
+    """XPath string literal, None if it cannot be written (XPath 1.0 has no quote escape)"""
+    t = text(cps)
+    if version == '1.0':
+        if "'" not in t:
+            return "'" + t + "'"
+        return '"' + t + '"' if '"' not in t else None
+    return "'" + t.replace("'", "''") + "'"
+
+
+def num_lit(tok: str, version: str) -> str:
+    if tok in SPECIALS:
+        if version == '1.0':
+            return {'INF': '(1 div 0)', '-INF': '(-1 div 0)', 'NaN': '(0 div 0)'}[tok]
+        return f"xs:double('{tok}')"
+    return tok          # 2.5 is an xs:decimal literal in XPath 2.0+, a number in XPath 1.0
+
+
+def call_site(action: str, args: tuple, src):
+    """-> (fn, format with {0} {1} .. for the arguments, [(kind, value)], in_xpath10)"""
+    s = ('str', tuple(src['s'])) if src['t'] == 'str' else None
+    if action == 'Fn1':
+        return args[0], args[0] + '({0})', [s], args[0] in IN10_F1
+    if action == 'Fn2':
+        return args[0], args[0] + '({0},{1})', [s, ('str', args[1])], args[0] in IN10_F2
+    if action == 'Translate':
+        return 'translate', 'translate({0},{1},{2})', [s, ('str', args[0]), ('str', args[1])], True
+    if action == 'Substring2':
+        return 'substring', 'substring({0},{1})', [s, ('num', args[0])], True
+    if action == 'Substring3':
+        return 'substring', 'substring({0},{1},{2})', [s, ('num', args[0]), ('num', args[1])], True
+    if action in ('ConcatNum', 'ConcatNum10'):
+        return 'concat', 'concat({0},{1})', [s, ('num', args[0])], True
+    if action == 'ConcatBool':
+        return 'concat', 'concat({0},' + ('true()' if args[0] else 'false()') + ')', [s], True
+    if action == 'Rejoin':
+        return 'rejoin', 'concat(substring-before({0},{1}),{1},substring-after({0},{1}))', [s, ('str', args[0])], True
+    raise ValueError(action)
+
+
+# literal (L) / variable (V) masks per argument position; at least one V
+MASKS = {
+    'Fn1': ['V'], 'Fn2': ['VL', 'LV', 'VV'], 'Translate': ['VLV', 'VVL', 'LVV', 'VLL', 'LLV', 'VVV'],
+    'Substring2': ['VL', 'LV', 'VV'], 'Substring3': ['VLV', 'VVL', 'LVV', 'VLL', 'VVV'],
+    'ConcatNum': ['VL', 'LV', 'VV'], 'ConcatNum10': ['VL', 'VV'], 'ConcatBool': ['V'], 'Rejoin': ['VL', 'LV', 'VV'],
+}
+BATCH = 6
+
+
+def enc_arg(kind, value):
+    return ['str', list(value)] if kind == 'str' else ['dbl', value]
+
+
+def items_of(exp):
+    """expected abstract value -> the items it contributes to a flattened sequence"""
+    if exp[0] == 'cps':
+        return [('int', c) for c in exp[1]]
+    if exp[0] == 'seq':
+        return []
+    return [exp]
+
+
+def project_items(r):
+    if not isinstance(r, list):
+        r = [r]
+    return [project(x) for x in r]
+
+
+def run_batch(members, mask, for_version, reuse_version, fails):
+    """members: [(idx, action, args, src, exp, fn, fmt, cargs, in10)] sharing the literal arguments.
+    -> number of evaluations"""
+    n_eval = 0
+    idx0, action0, args0, src0, exp0, fn, fmt, cargs0, in10 = members[0]
+    n = len(members)
+
+    def arg_texts(version, indexed):
+        out = []
+        for i, (kind, value) in enumerate(cargs0):
+            if mask[i] == 'L':
+                lit = str_lit(value, version) if kind == 'str' else num_lit(value, version)
+                if lit is None:
+                    return None
+                out.append(lit)
+            else:
+                out.append(f'$v{i}[$k]' if indexed else f'$v{i}')
+        return out
+
+    # (a) one expression, n evaluations of the same call site
+    if action0 != 'ConcatNum10':
+        at = arg_texts(for_version, True)
+        if at is not None:
+            expr = f'for $k in 1 to {n} return ' + fmt.format(*at)
+            vs = {f'v{i}': ['seq', [enc_arg(*m[7][i]) for m in members]] for i in range(len(cargs0)) if mask[i] == 'V'}
+            want = [it for m in members for it in items_of(m[4])]
+            sel = new_selector(expr, for_version)
+            obs = run_selector(sel, None, raw=True, item=1, variables={k: dec_var(e) for k, e in vs.items()})
+            n_eval += n
+            got = project_items(obs[1]) if obs[0] == 'raw' else None
+            if got != want:
+                k = 0
+                if got is not None and len(got) == len(want) and all(len(items_of(m[4])) == 1 for m in members):
+                    k = next(i for i in range(n) if got[i] != want[i])
+                m = members[k]
+                out = ('value' if got is not None else (f'error:{obs[1]}' if obs[0] == 'err' else f'{obs[0]}:{obs[1]}'))
+                feat = features(m[1], m[2], fn, m[3], m[4], out, for_version, 'for-batch', None)
+                feat['mask'] = mask
+                case = dict(mode='for', expr=expr, parser=for_version, variables=vs, first_wrong_item=k + 1)
+                fails.append((feat, case, want, got if got is not None else obs))
+    # (b) one parsed Selector, n variable bindings
+    rv = reuse_version
+    if action0 == 'ConcatNum10':
+        rv = '1.0'
+    elif rv == '1.0' and not in10:
+        rv = for_version
+    at = arg_texts(rv, False) if 'L' in mask or len(mask) == 1 else None
+    if at is not None:
+        expr = fmt.format(*at)
+        sel = new_selector(expr, rv)
+        history = []
+        for m in members:
+            if rv == '1.0' and m[1] == 'ConcatNum' and m[2][0] in ('INF', '-INF'):
+                continue
+            vs = {f'v{i}': enc_arg(*m[7][i]) for i in range(len(cargs0)) if mask[i] == 'V'}
+            history.append(vs)
+            obs = run_selector(sel, None, item=1, variables={k: dec_var(e) for k, e in vs.items()})
+            n_eval += 1
+            out = conforms(m[4], obs)
+            if out is not None:
+                feat = features(m[1], m[2], fn, m[3], m[4], out, rv, 'token-reuse', None)
+                feat['mask'] = mask
+                case = dict(mode='reuse', expr=expr, parser=rv, bindings=list(history))
+                fails.append((feat, case, m[4], obs))
+                break
+    return n_eval
+
+
+def batches_for_range(jobno, lo, hi, fails):
+    """group the edges lo..hi-1 into batches sharing their literal arguments and evaluate them"""
+    states, edges = G['states'], G['edges']
+    thorough = G.get('all_versions')
+    buckets: dict = {}
+    n_eval = n_batches = 0
+    for_version, other = ('2.0', '3.1') if jobno % 2 else ('3.1', '2.0')
+    reuse_version = '1.0' if jobno % 3 != 2 else other
+
+    def flush(members, mask):
+        nonlocal n_eval, n_batches
+        if len(members) >= 2:
+            n_eval += run_batch(members, mask, for_version, reuse_version, fails)
+            n_batches += 1
+
+    for idx in range(lo, hi):
+        s, d, action, args = edges[idx]
+        src = states[s]['cur']
+        if action not in MASKS or src['t'] != 'str' or (thorough and idx % 2):
+            continue
+        dst = states[d]['cur']
+        if dst['t'] == 'err':
+            continue
+        fn, fmt, cargs, in10 = call_site(action, args, src)
+        masks = MASKS[action]
+        mask = masks[(jobno + zlib.crc32((action + fn).encode())) % len(masks)]
+        key = (action, fmt, mask, tuple(cargs[i] for i in range(len(cargs)) if mask[i] == 'L'))
+        lst = buckets.setdefault(key, [])
+        lst.append((idx, action, args, src, norm_expected(dst), fn, fmt, cargs, in10))
+        if len(lst) >= BATCH:
+            flush(lst, mask)
+            del buckets[key]
+    for key in sorted(buckets, key=repr):
+        flush(buckets[key], key[2])
+    return n_eval, n_batches
+
+
+# ---------------------------------------------------------------------------------------
+# node-set argument family (XPath 1.0 parser / compatibility mode, libxml2 as second oracle)
+
+def doc_xml(docs) -> str:
+    return '<r>' + ''.join('<x k="k0">' + ''.join(f'<{n}>{n}{i + 1}</{n}>' for i, n in enumerate(kids)) + '</x>'
+                           for kids in docs) + '</r>'
+
+
+def doc_expr(action: str, args: tuple) -> str:
+    if action == 'DocFn1':
+        return f'{args[0]}({args[1]})'
+    if action == 'DocFn2':
+        return f'{args[0]}({args[1]}, {args[2]})'
+    if action == 'DocTranslate':
+        return 'translate({}, {}, {})'.format(*args)
+    if action == 'DocConcat3':
+        return 'concat({}, {}, {})'.format(*args)
+    if action == 'DocSubstring':
+        return 'substring({}, string-length({}))'.format(*args)
+    raise ValueError(action)
+
+
+_doc_trees: dict = {}
+
+
+def doc_trees(docs):
+    key = tuple(docs)
+    t = _doc_trees.get(key)
+    if t is None:
+        from xml.etree import ElementTree
+        from lxml import etree
+        xml = doc_xml(docs)
+        et, lx = ElementTree.XML(xml), etree.XML(xml)
+        t = _doc_trees[key] = dict(xml=xml, etree=(et, list(et)), lxml=(lx, list(lx)))
+    return t
+
+
+def doc_features(action, args, docs_kids, version, tree, spelling, outcome):
+    """docs_kids: the context elements involved (one for an item evaluation, all of them for a predicate)"""
+    paths = args[1:] if action in ('DocFn1', 'DocFn2') else args
+    count = lambda kids, p: sum(1 for n in kids if n == p) if p in ('b', 'c', 'd') else 1   # noqa: E731
+    multi = [any(count(k, p) >= 2 for k in docs_kids) for p in paths]
+    empty = [any(count(k, p) == 0 for k in docs_kids) for p in paths]
+    return dict(fn=(args[0] if action in ('DocFn1', 'DocFn2') else action[3:].lower()), action=action,
+                parser=version, tree=tree, spelling=spelling, outcome=outcome,
+                multinode_arg=any(multi), multinode_nonlast_arg=any(multi[:-1]),
+                empty_nodeset_arg=any(empty), empty_nodeset_arg23=any(empty[1:]))
+
+
+DOC_GROUP = 8      # context elements per document (building the node tree of a document dominates the cost)
+
+
+def doc_worker(job):
+    """job: list of (action, args); G['docs'] = [kids], G['doc_exp'][(action, args)] = [expected per doc].
+    The context elements are spread over several documents; ONE parsed Selector per (expression,
+    parser) is evaluated on every context element of every document."""
+    docs = G['docs']
+    groups = [(lo, docs[lo:lo + DOC_GROUP]) for lo in range(0, len(docs), DOC_GROUP)]
+    fails, oracle = [], []
+    n_eval = n_lx = 0
+    for jno, (action, args) in enumerate(job):
+        expr = doc_expr(action, args)
+        exps_all = G['doc_exp'][(action, args)]
+        configs = (('1.0', 'etree'), ('1.0', 'lxml'), ('2.0-compat', 'etree' if jno % 2 else 'lxml'))
+        sels = {version: new_selector(expr, version) for version in ('1.0', '2.0-compat')}
+        for gno, (lo, gdocs) in enumerate(groups):
+            trees = doc_trees(gdocs)
+            lx_root, lx_xs = trees['lxml']
+            exps = exps_all[lo:lo + len(gdocs)]
+            for j, x in enumerate(lx_xs):               # libxml2 on every context element
+                lx = project(x.xpath(expr))
+                n_lx += 1
+                if conforms(exps[j], lx) is not None:
+                    oracle.append(f'{expr} on {gdocs[j]}: spec {exps[j]} libxml2 {lx}')
+            for version, tree in configs:
+                root, xs = trees[tree]
+                for j, x in enumerate(xs):
+                    obs = run_selector(sels[version], root, item=x)
+                    n_eval += 1
+                    out = conforms(exps[j], obs)
+                    if out is not None:
+                        feat = doc_features(action, args, [gdocs[j]], version, tree, 'item', out)
+                        case = dict(mode='doc', xml=trees['xml'], expr=expr, parser=version, tree=tree, item_index=j)
+                        fails.append((feat, case, exps[j], obs))
+            # predicate spelling: which context elements give the value e (expected set from the TLC values)
+            distinct = sorted({e for e in exps if e[0] in ('str', 'int')}, key=repr)
+            e = distinct[(jno + gno) % len(distinct)] if distinct else ('bool', True)
+            if e[0] == 'bool':
+                pexpr, pvars = f'/r/x[{expr}]', {}
+                want = [j for j, v in enumerate(exps) if v == ('bool', True)]
+            else:
+                pexpr = f'/r/x[{expr} = $e]'
+                pvars = {'e': text(e[1]) if e[0] == 'str' else float(e[1])}
+                want = [j for j, v in enumerate(exps) if v == e]
+            lxi = [lx_xs.index(x) for x in lx_root.xpath(pexpr, **pvars)]
+            n_lx += 1
+            if lxi != want:
+                oracle.append(f'{pexpr} {pvars} on {gdocs}: spec {want} libxml2 {lxi}')
+            version, tree = configs[(jno + gno) % 3]
+            root, xs = trees[tree]
+            obs = run_selector(new_selector(pexpr, version), root, raw=True, variables=pvars)
+            n_eval += len(xs)
+            got = None
+            if obs[0] == 'raw' and isinstance(obs[1], list):
+                try:
+                    got = [xs.index(x) for x in obs[1]]
+                except ValueError:
+                    got = None
+            if got != want:
+                out = 'value' if obs[0] == 'raw' else f'{obs[0]}:{obs[1]}'
+                wrong = sorted(set(got or []) ^ set(want))
+                feat = doc_features(action, args, [gdocs[j] for j in wrong] if wrong and got is not None else gdocs,
+                                    version, tree, 'predicate', out)
+                case = dict(mode='doc-predicate', xml=trees['xml'], expr=pexpr, parser=version, tree=tree,
+                            variables={k: (['str', list(map(ord, v))] if isinstance(v, str) else ['dbl', repr(v)]) for k, v in pvars.items()})
+                fails.append((feat, case, want, got if got is not None else str(obs)[:200]))
+    return n_eval, n_lx, fails, oracle
+
+
 # ---------------------------------------------------------------------------------------
 # abstract features of a failing case (known findings are sub-patterns of these)
 
@@ -349,7 +702,7 @@ def spellings(idx, src, action, args):
 
 
 def worker(job):
-    lo, hi = job
+    jobno, lo, hi = job
     states, edges, producers = G['states'], G['edges'], G['producers']
     fails, oracle = [], []
     n_eval = n_lx = n_nested = 0
@@ -357,6 +710,8 @@ def worker(job):
     for idx in range(lo, hi):
         s, d, action, args = edges[idx]
         src, dst = states[s]['cur'], states[d]['cur']
+        if src['t'] == 'doc':
+            continue
         exp = norm_expected(dst)
         fn, sps = spellings(idx, src, action, args)
         # chains of depth 2: the source spelled as the call that produced it along another edge
@@ -400,7 +755,8 @@ def worker(job):
                     feat = features(action, args, fn, src, exp, out, v, spelling.split(':')[0], inner)
                     case = dict(expr=expr, parser=v, variables=vs, fresh_and_cached_agree=(again == obs))
                     fails.append((feat, case, exp, obs))
-    return n_eval, n_lx, n_nested, fails, oracle
+    n_beval, n_batches = batches_for_range(jobno, lo, hi, fails)
+    return n_eval, n_lx, n_nested, fails, oracle, n_beval, n_batches
 
 
 def spec_oracles(g) -> list[str]:
@@ -436,9 +792,64 @@ def trivial(src, dst) -> bool:
     return dst['t'] in ('empty',)
 
 
+def _tup(x):
+    return tuple(_tup(y) for y in x) if isinstance(x, list) else x
+
+
+def replay_history(rec: dict) -> int:
+    """batches (one call site evaluated several times) and node-set argument cases"""
+    case, mode = rec['case'], rec['case']['mode']
+    print('mode      :', mode, ' parser', case['parser'])
+    print('expr      :', case['expr'])
+    sel = new_selector(case['expr'], case['parser'])
+    if mode == 'for':
+        vs = {k: dec_var(e) for k, e in case['variables'].items()}
+        obs = run_selector(sel, None, raw=True, item=1, variables=vs)
+        got = project_items(obs[1]) if obs[0] == 'raw' else obs
+        want = [_tup(x) for x in rec['expected']]
+        print('variables :', vs)
+        print('expected  :', want)
+        print('observed  :', got)
+        bad = got != want
+    elif mode == 'reuse':
+        obs = None
+        for vs in case['bindings']:
+            vals = {k: dec_var(e) for k, e in vs.items()}
+            obs = run_selector(sel, None, item=1, variables=vals)
+            print('  binding :', vals, '->', obs)
+        want = _tup(rec['expected'])
+        print('expected (last binding):', want)
+        bad = conforms(want, obs) is not None
+    else:
+        from xml.etree import ElementTree
+        from lxml import etree
+        root = ElementTree.XML(case['xml']) if case['tree'] == 'etree' else etree.XML(case['xml'])
+        xs = list(root)
+        print('document  :', case['xml'][:300])
+        if mode == 'doc':
+            j = case['item_index']
+            obs = run_selector(sel, root, item=xs[j])
+            want = _tup(rec['expected'])
+            print(f'context   : x[{j + 1}]  expected {want}  observed {obs}')
+            bad = conforms(want, obs) is not None
+        else:
+            vs = {k: dec_var(e) for k, e in case.get('variables', {}).items()}
+            obs = run_selector(sel, root, raw=True, variables=vs)
+            got = [xs.index(x) for x in obs[1]] if obs[0] == 'raw' and isinstance(obs[1], list) else obs
+            print('variables :', vs, ' expected x indexes', rec['expected'], ' observed', got)
+            bad = got != rec['expected']
+    if bad:
+        print('VIOLATION property=C09 replay=(replayed)')
+        return 1
+    return 0
+
+
 def replay(rec: dict) -> int:
     core.setup_repo_path()
     case = rec['case']
+    mode = case.get('mode')
+    if mode in ('for', 'reuse', 'doc', 'doc-predicate'):
+        return replay_history(rec)
     obs = evaluate(case['expr'], case['parser'], case['variables'], fresh=True)
     exp = tuple(tuple(x) if isinstance(x, list) else x for x in rec['expected'])
     print('expr      :', case['expr'], ' parser', case['parser'])
@@ -465,7 +876,7 @@ def run(chk: core.Check) -> None:
     for name, consts in TIERS[chk.tier]:
         wd = os.path.join(chk.scratch, name)
         dot = os.path.join(wd, 'g.dot')
-        cfg = tla.cfg_text(consts, invariants=['Laws', 'LawCps'])
+        cfg = tla.cfg_text(consts, invariants=['Laws', 'LawCps', 'LawsUri', 'LawDoc'])
         r = tla.require_ok(tla.run_tlc('Strings', cfg, wd, dump_dot=dot), f'Strings/{name}', min_distinct=100)
         chk.model(f'Strings/{name}', r)
         g = tla.load_dot(dot)
@@ -476,10 +887,10 @@ def run(chk: core.Check) -> None:
         msgs = spec_oracles(g)
         if msgs:
             raise tla.MachineryError(f'spec/Strings disagrees with a python oracle: {msgs[:5]}')
-        has_out = {e[0] for e in g.edges}
+        has_out = {e[0] for e in g.edges if not e[2].startswith('Doc')}
         producers: dict[int, list] = {}
         for s, d, a, args in g.edges:
-            if d in has_out and s != d and a != 'ConcatNum10':
+            if d in has_out and s != d and a != 'ConcatNum10' and not a.startswith('Doc'):
                 lst = producers.setdefault(d, [])
                 fnm = (a, args[0] if a in ('Fn1', 'Fn2') else None)
                 if len(lst) < 3 and all((x[1], x[2][0] if x[1] in ('Fn1', 'Fn2') else None) != fnm for x in lst):
@@ -495,22 +906,45 @@ def run(chk: core.Check) -> None:
         chk.add('traces_validated_against_impl', n)
         chk.add('distinct_nontrivial', len(nontrivial))
         nt_edges = [e for e in g.edges[:: max(1, n // 4000)] if not trivial(g.states[e[0]]['cur'], g.states[e[1]]['cur'])]
-        for s, d, a, args in nt_edges[:: max(1, len(nt_edges) // 5)][:5]:
+        for s, d, a, args in [e for e in nt_edges if not e[2].startswith('Doc')][:: max(1, len(nt_edges) // 5)][:5]:
             fn, expr, vs, _ = template(a, args)
             chk.sample(dict(expr=expr, variables={k: dec_var(e) for k, e in dict(vs, s=enc_value(g.states[s]['cur'])).items()},
                             expected=norm_expected(g.states[d]['cur'])))
         step = max(1, (n + 255) // 256)
-        results = core.pool_map(worker, [(lo, min(n, lo + step)) for lo in range(0, n, step)])
+        results = core.pool_map(worker, [(k, lo, min(n, lo + step)) for k, lo in enumerate(range(0, n, step))])
         oracle_msgs = []
         nested = 0
-        for n_eval, n_lx, n_nested, fails, oracle in results:
-            chk.add('evaluations', n_eval)
+        for n_eval, n_lx, n_nested, fails, oracle, n_beval, n_batches in results:
+            chk.add('evaluations', n_eval + n_beval)
             chk.add('libxml2_evaluations', n_lx)
+            chk.add('batch_evaluations', n_beval)
+            chk.add('batches_one_call_site_evaluated_repeatedly', n_batches)
             nested += n_nested
             oracle_msgs += oracle
             for feat, case, exp, obs in fails:
-                chk.fail(feat, case, exp, obs, what=f"{case['expr']} {json.dumps(case['variables'])[:160]}")
+                chk.fail(feat, case, exp, obs, what=f"{case['expr']} {json.dumps(case.get('variables', case.get('bindings')))[:160]}")
         chk.add('nested_chain_evaluations', nested)
+        # node-set argument family
+        doc_sids = sorted((sid for sid, st in g.states.items() if st['cur']['t'] == 'doc'), key=lambda x: g.states[x]['cur']['kids'])
+        if doc_sids:
+            pos = {sid: j for j, sid in enumerate(doc_sids)}
+            doc_exp: dict = {}
+            for s, d, a, args in g.edges:
+                if a.startswith('Doc'):
+                    doc_exp.setdefault((a, args), [None] * len(doc_sids))[pos[s]] = norm_expected(g.states[d]['cur'])
+            labels = sorted(doc_exp, key=repr)
+            if any(v is None for lab in labels for v in doc_exp[lab]):
+                raise tla.MachineryError('doc family: an action is missing on some document')
+            G.update(docs=[g.states[sid]['cur']['kids'] for sid in doc_sids], doc_exp=doc_exp)
+            for n_eval, n_lx, fails, oracle in core.pool_map(doc_worker, core.chunked(labels, 64)):
+                chk.add('evaluations', n_eval)
+                chk.add('nodeset_argument_evaluations', n_eval)
+                chk.add('libxml2_evaluations', n_lx)
+                oracle_msgs += oracle
+                for feat, case, exp, obs in fails:
+                    chk.fail(feat, case, exp, obs, what=f"{case['expr']} [{case['parser']}, {case['tree']}]")
+            chk.sample(dict(document=doc_xml(G['docs'][4:8]), expr=doc_expr(*labels[len(labels) // 2]), parser='1.0',
+                            expected_per_context_element=doc_exp[labels[len(labels) // 2]][4:8]))
         if oracle_msgs:
             raise tla.MachineryError(f'spec/Strings disagrees with libxml2 on {len(oracle_msgs)} vectors: {oracle_msgs[:5]}')
         print(f'  {name}: states={r.distinct} edges={n} nested={nested} tlc={r.wall_s:.1f}s', flush=True)
@@ -519,6 +953,8 @@ def run(chk: core.Check) -> None:
     if missing:
         raise tla.MachineryError(f'actions never fired in the Strings graph (vacuous): {sorted(missing)}')
     chk.coverage['exhaustive'] = True
-    chk.coverage['rule'] = ('every edge of the TLC graph of Strings (string x function x second string / map pair / numeric grid) is one case, '
-                            'replayed with the 1.0/2.0/3.1 parsers in plain, collation-argument, exact-numeric and nested-call spellings and through libxml2; '
+    chk.coverage['rule'] = ('every edge of the TLC graph of Strings (string x function x second string / map pair / numeric grid; URI strings; '
+                            'context element x node-set argument paths) is one case, '
+                            'replayed with the 1.0/2.0/3.1 parsers in plain, collation-argument, exact-numeric and nested-call spellings, in batches '
+                            '(one call site evaluated repeatedly with literal/variable argument masks: for-expression and one Selector over several bindings) and through libxml2; '
                             'distinct non-trivial = distinct (source, action, arguments) whose expected value is not the unchanged source, "", false or ()')
